@@ -8,10 +8,11 @@ use crate::{for_both, hx, Ctx, Tier};
 use blsful::*;
 use serde_json::json;
 
-pub const RULE: &str = "n in {2,3,8,64} (quick) / every n in 2..=64 (thorough) x {ProofOfPossession, Basic} x 2 groups x messages from the length classes: n fresh keys sign one message; MultiSignature::from_signatures must equal the reference group sum (bytes), also when one part occurs twice (front / middle / end) and MultiPublicKey::from_public_keys the key sum; (msig, mpk, msg) must verify (library and reference); omission of each signer, addition of one, replacement of each (every position for n<=16, 8 sampled above) and another message must fail, each also decided by the reference under the summed key; the accumulated key built from the signer list in another order must still verify. Accumulation refusal: all 3^n scheme assignments for n in {2,3}, MessageAugmentation at every position for n in {4,8}, sizes 0 and 1. Distinct by (suite, scheme, variant, mpk, msig, msg); non-trivial = pairing equation decides (points decode, none is the identity).";
+pub const RULE: &str = "n in {2,3,8,64} (quick) / every n in 2..=64 (thorough) x {ProofOfPossession, Basic} x 2 groups x messages from the length classes: n fresh keys sign one message; accumulation (always through BOTH doors, MultiSignature::from_signatures and TryFrom<&[Signature]>, which must agree; an acceptance through either counts) must equal the reference group sum (bytes), also when one part occurs twice (front / middle / end) and MultiPublicKey::from_public_keys the key sum; (msig, mpk, msg) must verify (library and reference); omission of each signer, addition of one, replacement of each (every position for n<=16, 8 sampled above) and another message must fail, each also decided by the reference under the summed key; the accumulated key built from the signer list in another order must still verify. Accumulation refusal: all 3^n scheme assignments for n in {2,3}, MessageAugmentation at every position for n in {4,8}, sizes 0 and 1. Distinct by (suite, scheme, variant, mpk, msig, msg); non-trivial = pairing equation decides (points decode, none is the identity).";
 
 pub fn run(ctx: &mut Ctx) {
     for_both!(run_suite, ctx);
+    flush_entry_point_disagreements(ctx, "C07");
 }
 
 fn sizes(t: Tier) -> Vec<usize> {
@@ -80,7 +81,7 @@ fn one_set<C: Suite>(ctx: &mut Ctx, g: u64, scheme: Scheme, cnt: usize, idx: usi
     let sks: Vec<SecretKey<C>> = keys.iter().map(sk_from_rs::<C>).collect();
     let pks: Vec<PublicKey<C>> = sks.iter().map(|s| s.public_key()).collect();
     let sigs: Vec<Signature<C>> = sks.iter().map(|s| s.sign(lscheme(scheme), &msg).expect("sign")).collect();
-    let ms = match ctx.guard("MultiSignature::from_signatures", || json!({"n":cnt}), || MultiSignature::<C>::from_signatures(&sigs)) {
+    let ms = match ctx.guard("MultiSignature::from_signatures", || json!({"n":cnt}), || multi_from::<C>(&sigs)) {
         Some(Ok(m)) => m,
         Some(Err(e)) => {
             ctx.violation(&format!("C07/accumulation-refused/{n}/{sn}"), json!({"n":cnt,"err":e.to_string()}));
@@ -110,7 +111,7 @@ fn one_set<C: Suite>(ctx: &mut Ctx, g: u64, scheme: Scheme, cnt: usize, idx: usi
         s2.insert(at + 1, sigs[at]);
         let mut p2 = pks.clone();
         p2.insert(at + 1, pks[at]);
-        if let Some(Ok(m2)) = ctx.guard("MultiSignature::from_signatures", || json!({"n":cnt + 1,"variant":vn}), || MultiSignature::<C>::from_signatures(&s2)) {
+        if let Some(Ok(m2)) = ctx.guard("MultiSignature::from_signatures", || json!({"n":cnt + 1,"variant":vn}), || multi_from::<C>(&s2)) {
             let want = rsum.add(rsig_of::<C>(&sigs[at]));
             ctx.expect(enc_pt(m2.as_raw_value()) == want.enc(), &format!("C07/msig-not-sum/{n}/{sn}"), || {
                 json!({"what":"multi-signature with a repeated part is not the plain group sum of its parts","n":cnt + 1,"variant":vn,"lib":hex::encode(enc_pt(m2.as_raw_value())),"ref":hex::encode(want.enc())})
@@ -127,7 +128,7 @@ fn one_set<C: Suite>(ctx: &mut Ctx, g: u64, scheme: Scheme, cnt: usize, idx: usi
     decide::<C>(ctx, &format!("{n}/{sn}/honest-reordered"), scheme, "keys reversed", true, &ms, &rp, &msg);
     let mut rs = sigs.clone();
     gen::shuffle(&mut rs, &mut rng);
-    if let Ok(ms2) = MultiSignature::<C>::from_signatures(&rs) {
+    if let Ok(ms2) = multi_from::<C>(&rs) {
         decide::<C>(ctx, &format!("{n}/{sn}/honest-reordered"), scheme, "signatures shuffled", true, &ms2, &pks, &msg);
     }
     let positions: Vec<usize> = if cnt <= 16 {
@@ -154,7 +155,7 @@ fn one_set<C: Suite>(ctx: &mut Ctx, g: u64, scheme: Scheme, cnt: usize, idx: usi
         let mut s = sigs.clone();
         s.remove(pos);
         if s.len() >= 2 {
-            if let Ok(m2) = MultiSignature::<C>::from_signatures(&s) {
+            if let Ok(m2) = multi_from::<C>(&s) {
                 decide::<C>(ctx, &format!("{n}/{sn}/omitted"), scheme, &format!("signer {pos} omitted from signature"), false, &m2, &pks, &msg);
             }
         }
@@ -164,7 +165,7 @@ fn one_set<C: Suite>(ctx: &mut Ctx, g: u64, scheme: Scheme, cnt: usize, idx: usi
     decide::<C>(ctx, &format!("{n}/{sn}/added"), scheme, "key added", false, &ms, &p, &msg);
     let mut s = sigs.clone();
     s.push(extra.sign(lscheme(scheme), &msg).expect("sign"));
-    if let Ok(m2) = MultiSignature::<C>::from_signatures(&s) {
+    if let Ok(m2) = multi_from::<C>(&s) {
         decide::<C>(ctx, &format!("{n}/{sn}/added"), scheme, "signature added", false, &m2, &pks, &msg);
         // and the complete enlarged set is valid again
         decide::<C>(ctx, &format!("{n}/{sn}/honest"), scheme, "enlarged set", true, &m2, &p, &msg);
@@ -185,12 +186,12 @@ fn refusal<C: Suite>(ctx: &mut Ctx, g: u64) {
     let msg = b"one message".to_vec();
     let mk = |s: Scheme| sk.sign(lscheme(s), &msg).expect("sign");
     let none: Vec<Signature<C>> = vec![];
-    let r = ctx.guard("MultiSignature::from_signatures", || json!({"n":0}), || MultiSignature::<C>::from_signatures(&none).is_ok());
+    let r = ctx.guard("MultiSignature::from_signatures", || json!({"n":0}), || multi_from::<C>(&none).is_ok());
     ctx.expect(r == Some(false), &format!("C07/accepted-too-few/{n}/0"), || json!({"what":"accumulation of zero signatures accepted"}));
     ctx.hit(&format!("{n}/refusal/too-few"), &[&[0]]);
     for s in SCHEMES {
         let one = vec![mk(s)];
-        let r = ctx.guard("MultiSignature::from_signatures", || json!({"n":1}), || MultiSignature::<C>::from_signatures(&one).is_ok());
+        let r = ctx.guard("MultiSignature::from_signatures", || json!({"n":1}), || multi_from::<C>(&one).is_ok());
         ctx.expect(r == Some(false), &format!("C07/accepted-too-few/{n}/1"), || json!({"what":"accumulation of one signature accepted","scheme":s.name()}));
         ctx.hit(&format!("{n}/refusal/too-few"), &[&[1, s.wire()]]);
     }
@@ -205,7 +206,7 @@ fn refusal<C: Suite>(ctx: &mut Ctx, g: u64) {
             let ok_expected = assign.iter().all(|s| *s == assign[0]) && assign[0] != Scheme::Aug;
             let sigs: Vec<Signature<C>> = assign.iter().map(|s| mk(*s)).collect();
             let names: Vec<&str> = assign.iter().map(|s| s.name()).collect();
-            let Some(r) = ctx.guard("MultiSignature::from_signatures", || json!({"assign":names}), || MultiSignature::<C>::from_signatures(&sigs).is_ok()) else { continue };
+            let Some(r) = ctx.guard("MultiSignature::from_signatures", || json!({"assign":names}), || multi_from::<C>(&sigs).is_ok()) else { continue };
             if ok_expected {
                 ctx.expect(r, &format!("C07/uniform-refused/{n}"), || json!({"assign":names}));
             } else {
@@ -219,7 +220,7 @@ fn refusal<C: Suite>(ctx: &mut Ctx, g: u64) {
         for other in [Scheme::Pop, Scheme::Basic, Scheme::Aug] {
             for pos in 0..cnt {
                 let sigs: Vec<Signature<C>> = (0..cnt).map(|i| if i == pos { mk(Scheme::Aug) } else { mk(other) }).collect();
-                let Some(r) = ctx.guard("MultiSignature::from_signatures", || json!({"n":cnt,"aug_at":pos}), || MultiSignature::<C>::from_signatures(&sigs).is_ok()) else { continue };
+                let Some(r) = ctx.guard("MultiSignature::from_signatures", || json!({"n":cnt,"aug_at":pos}), || multi_from::<C>(&sigs).is_ok()) else { continue };
                 ctx.expect(!r, &format!("C07/aug-accepted/{n}"), || json!({"what":"accumulation accepted a message-augmentation signature","n":cnt,"aug_at":pos,"others":other.name()}));
                 ctx.hit(&format!("{n}/refusal/aug-at-position"), &[&[cnt as u8, pos as u8, other.wire()]]);
             }
